@@ -84,6 +84,7 @@ type VC struct {
 	inlineSeq int
 	noSafety  bool
 	preludeError string
+	refLoops  map[Term]map[string]bool // fresh ref -> loops active when it was allocated
 	mapKeys   map[string][]Term // map domain heap -> key terms used by the function (replay candidates)
 	lemma     *Lemma
 	heapAlloc map[string]Term
@@ -340,6 +341,28 @@ func (vc *VC) scriptPrefix() string {
 	return b.String()
 }
 
+// frameHeap defines a new version of a ref-indexed heap that agrees with `old` on every
+// object r <= bound (except the listed refs) and is arbitrary elsewhere. Encoded as a lambda
+// array (z3), which keeps the query quantifier-free.
+func (vc *VC) frameHeap(st *State, name string, old Term, bound Term, except []Term) Term {
+	s := vc.heapSorts[name]
+	if s == "" {
+		s = vc.known[name]
+	}
+	vs := strings.TrimSuffix(strings.TrimPrefix(s, "(Array Int "), ")")
+	nw := vc.fresh(name+".new", s)
+	cond := []Term{sx("<=", "r!l", bound)}
+	for _, e := range except {
+		cond = append(cond, not(eq("r!l", e)))
+	}
+	_ = vs
+	t := fmt.Sprintf("(lambda ((r!l Int)) (ite %s (select %s r!l) (select %s r!l)))", and(cond...), old, nw)
+	n := vc.freshName(name)
+	vc.cmds = append(vc.cmds, fmt.Sprintf("(define-fun %s () %s %s)", n, s, t))
+	st.heaps[name] = n
+	return n
+}
+
 // faddr returns the address of a struct-valued field embedded in the object at
 // ref, together with the (instance) injectivity facts.
 func (vc *VC) faddr(heapName string, ref Term) Term {
@@ -352,5 +375,8 @@ func (vc *VC) faddr(heapName string, ref Term) Term {
 	n := vc.define("fa", SInt, t)
 	vc.cmds = append(vc.cmds, "(assert "+and(eq(sx("fbase", n), ref), eq(sx("ffid", n), fid), sx("<", n, "0"))+")")
 	vc.faddrSeen[key] = n
+	if rl, ok := vc.refLoops[ref]; ok {
+		vc.refLoops[n] = rl // an embedded struct of a fresh object is as fresh as the object
+	}
 	return n
 }
